@@ -63,6 +63,10 @@ static size_t forge(uint8_t *out, int what, int64_t arg, const uint8_t ver[2])
 		out[5] = TLS_handshake_certificate_request; out[6] = 0; out[7] = 0; out[8] = 4;
 		out[9] = 1; out[10] = (arg & 1) ? 1 : 64; out[11] = 0; out[12] = 0;
 		return 13;
+	case 9: /* HelloRequest (type 0, empty body) nobody sent */
+		out[0] = TLS_record_handshake; out[1] = ver[0]; out[2] = ver[1]; out[3] = 0; out[4] = 4;
+		out[5] = 0; out[6] = 0; out[7] = 0; out[8] = 0;
+		return 9;
 	case 7: { /* a record of legal but large size, with more bytes of the same flight already queued behind it:
 		   * a receiver that reads the body in pieces must not ask for more than what is left of it */
 		static const size_t body[] = { 9300, 12000, 16384, 17000, 18432 };
@@ -402,7 +406,7 @@ static void gen_fault_hs(Fault *f, Rng *g, const HonestOut *o)
 		break;
 	case F_INJECT:
 		if (rng_chance(g, 1, 8)) f->rec = -1;
-		f->a = rng_below(g, 9);
+		f->a = rng_below(g, 10);
 		f->b = (int64_t)(rng_u64(g) >> 40);
 		if (f->a == 0) f->b = (int64_t[]){ 0, 10, 20, 40, 47, 80 }[rng_below(g, 6)];
 		break;
